@@ -31,11 +31,26 @@ Definition produce_of (trs : list trial_rec) (tr d k : nat) (_ : list (list Qc))
   nth (S k) (calls_of trs tr d) [].
 Definition niter_of (trs : list trial_rec) (tr d : nat) : nat := pred (List.length (calls_of trs tr d)).
 
+(* the input of the FIRST normalize call of a dimension is the model's initial row: given
+   entries are "initial - size/2" (random ones are taken from the record) *)
+Definition start_ok (tol : Qc) (trs : list trial_rec) (hsx hsy : Qc) (tr d : nat) (fx : list bool) (ini : list Qc) : bool :=
+  match init_coord (rnd_of trs hsx hsy) tr d 0 (if Nat.eqb d 1 then hsx else hsy) fx ini with
+  | Ok c0 => list_eqb (aclose tol) c0 (nth 0 (calls_of trs tr d) [])
+  | _ => false
+  end.
+Fixpoint starts_ok (tol : Qc) (trs : list trial_rec) (hsx hsy : Qc) (n tr : nat) (fx : list bool) (inix iniy : list Qc) : bool :=
+  match n with
+  | O => true
+  | S n' => start_ok tol trs hsx hsy tr 1 fx inix && start_ok tol trs hsx hsy tr 2 fx iniy &&
+            starts_ok tol trs hsx hsy n' (S tr) fx inix iniy
+  end.
+
 (* spectral_layout_die: one trial, returned coordinate rows *)
 Definition die_ok (thr tol W H : Qc) (radius : list Qc) (fx : list bool) (inix iniy : list Qc)
            (t : trial_rec) (rx ry : list Qc) : bool :=
   match layout_die thr (rnd_of [t] (W * half) (H * half)) (produce_of [t]) (niter_of [t]) 0 W H radius fx inix iniy with
-  | Ok (xs, ys) => list_eqb (aclose tol) xs rx && list_eqb (aclose tol) ys ry
+  | Ok (xs, ys) => list_eqb (aclose tol) xs rx && list_eqb (aclose tol) ys ry &&
+                   starts_ok tol [t] (W * half) (H * half) 1 0 fx inix iniy
   | _ => false
   end.
 
@@ -55,7 +70,10 @@ Definition layout_ok (thr tol W H : Qc) (nf : nat) (ms : list (smod Qc)) (adj : 
            (trs : list trial_rec) (out : list (smod Qc)) : bool :=
   match spectral_layout thr (rnd_of trs (W * half) (H * half)) (produce_of trs) (niter_of trs)
                         (fun m => s_other m) W H nf (mkSnet ms adj tt) with
-  | Ok o => list_eqb (smod_close tol) (s_mods o) out
+  | Ok o => list_eqb (smod_close tol) (s_mods o) out &&
+            starts_ok tol trs (W * half) (H * half) (List.length trs) 0 (map (fun m => s_fixed m) ms)
+                      (map (if Nat.eqb nf 0 then cx_of else forget cx_of) ms)
+                      (map (if Nat.eqb nf 0 then cy_of else forget cy_of) ms)
   | _ => false
   end.
 (* the implementation raised: the model must not return either *)
